@@ -49,6 +49,12 @@ impl Ctx {
     }
 }
 
+/// Does a type name mention a representation whose bottom is a degenerate size (zero-length array,
+/// always-empty container, `None`)?
+fn degenerate_repr(name: &str) -> bool {
+    ["ArraySet0", "ArrayMap0", "EmptySet", "EmptyMap", "OptionSet", "OptionMap"].iter().any(|m| name.contains(m))
+}
+
 fn class_of(rs: &[&R]) -> &'static str {
     if rs.iter().any(|r| has_hidden_bottom(r)) { "hidden-bottom" } else { "plain" }
 }
@@ -425,6 +431,9 @@ fn c02_case(cx: &mut Ctx, e: &Entry, f: fn(&R, &R) -> P<(bool, R)>, ra: &R, rb: 
                     case(),
                 );
             }
+            if degenerate_repr(&e.other().name) && (mb.is_bot() || has_hidden_bottom(rb)) {
+                cx.rep.count("c02_other_is_degenerate_bottom");
+            }
             if flag {
                 cx.rep.count("c02_flag_true");
             } else {
@@ -763,9 +772,14 @@ fn c03u(cx: &mut Ctx, e: &Entry, f: UnaryFn, inp: Option<&Value>) {
     }
     let u = cx.uni(&e.t.shape, cx.args.budget(200, 400, 6));
     let fam = e.t.name.clone();
+    let mut saw_bottom = false;
     for r in e.vals_t(&u) {
         c03u_case(cx, e, f, &r);
         cx.rep.nontrivial(hash_of(&("c03u", &fam, &r)));
+        saw_bottom |= norm(&r).is_bot();
+    }
+    if saw_bottom && degenerate_repr(&fam) {
+        cx.rep.count("c03_degenerate_bottom_representations");
     }
     cx.rep.count("c03_isbot_istop_families");
 }
